@@ -61,6 +61,7 @@ func runC19(c *Check) {
 	c19Token(c)
 	c19Policy(c, mods)
 	_ = p
+	c19PayloadKeys(c)
 }
 
 func c19Surface(c *Check) []*rpcModule {
